@@ -199,6 +199,24 @@ func TestC14_Planted(t *testing.T) {
 			e = &bx.Match{Sel: bx.Sel{Parts: []string{"x"}}, Op: bx.OpEq, Lit: "1"}
 			root = m
 		}
+		if shape <= 1 && rapid.IntRange(0, 4).Draw(t, "jsonNumbers") == 0 {
+			// a map with a STATIC scalar element type whose entries are nevertheless compared in different kinds:
+			// json.Number reads as int64 or float64 entry by entry, so `v == 1.5` is an error for "1", true for "1.5"
+			jt := uni.Scalar(uni.KJSONNum)
+			jm := &uni.Node{T: uni.MapOf(strT, jt)}
+			for i := 0; i < n; i++ {
+				jm.Keys = append(jm.Keys, uni.Str("k"+strconv.Itoa(i)))
+				jm.Elems = append(jm.Elems, uni.JSONNum([]string{"1", "1.5", "2", "abc", "1.50"}[rapid.IntRange(0, 4).Draw(t, "jn")]))
+			}
+			m = jm
+			root = &uni.Node{T: uni.MapOf(strT, uni.Iface()), Keys: []*uni.Node{uni.Str("m")}, Elems: []*uni.Node{uni.InIface(m)}}
+			lit := []string{"1.5", "1", "abc"}[rapid.IntRange(0, 2).Draw(t, "jlit")]
+			q := &bx.Quant{All: all, Sel: bx.Sel{Parts: []string{"m"}}, Mode: bx.BindBoth, Index: "k", Value: "v", Body: &bx.Match{Sel: bx.Sel{Parts: []string{"v"}}, Op: []bx.Op{bx.OpEq, bx.OpNe}[rapid.IntRange(0, 1).Draw(t, "jop")], Lit: lit}}
+			if shape == 1 {
+				q.Mode, q.Index = bx.BindValue, ""
+			}
+			e = q
+		}
 		oddKeys := false
 		if shape != 5 && shape != 6 && n <= 11 && rapid.Bool().Draw(t, "oddKeys") {
 			// keys as users have them: the empty string, blanks, other scripts, digits (sorted as text), slashes
